@@ -242,10 +242,10 @@ CLAIMS['C01']['text'] += (' R-COMMIT: Promise::Set constructs the Result (which 
 ADDED_RULES = {
     'C01': 'R-GETWAIT (Future::Get reads the stored Result only after Wait(*this) or on the true edge of Ready()). R-HANDLEMOVE (shared with C03). R-CONNECT also knows the continuation form of Connect (the attached continuation must take the whole Result and Set the promise). R-SETARGS (Promise::Set stores exactly its arguments; Set() stores the value with std::in_place).',
     'C02': 'R-RESULT (the variant alternative order agrees with ResultState; every Result constructor selects the alternative of its tag; accessors read the alternative their state names); R-MOVEOUT.site on core.hpp (a flattened inner result is moved only from a statically unique or provably last-observed core); R-TRY also requires every handler of the protecting try to store current_exception() or rethrow. R-INVOKE (the callback is invoked exactly once per run and the step completes with what it returned); R-DISPATCH also checks what is handed on (the input Result or its matching alternative). R-DISPATCH.class (the state on which a step invokes its callback is the one the callback\'s own signature names, decided independently of the library\'s classification; probe error type Errno that converts to the value type).',
-    'C03': 'R-AFTERRELEASE (no use after the last owned DecRef), R-HANDLEASSIGN (IntrusivePtr same-type move assignment swaps: the handles\' defaulted move assignment relies on the moved-from destructor protocol). R-HANDLESPEC (IntrusivePtr members against ownership conservation by abstract interpretation), R-HANDLEMOVE (move assignment of the owning handles never releases the old state by a bare DecRef). R-STOREOVER (typestate of the Result storage of constructed-ready cores), R-APICOVER (every public function template is instantiated by some analysed unit; an uncovered entry is exit 2). R-ADOPT (a reference adopted with NoRefTag was taken by the same function, IncRef first; Reset(NoRefTag) only overwrites the handle of an object created in the same function, helpers followed). R-HANDOFF (shared with C04).',
+    'C03': 'R-AFTERRELEASE (no use after the last owned DecRef), R-HANDLEASSIGN (IntrusivePtr same-type move assignment swaps: the handles\' defaulted move assignment relies on the moved-from destructor protocol). R-HANDLESPEC (IntrusivePtr members against ownership conservation by abstract interpretation), R-HANDLEMOVE (move assignment of the owning handles never releases the old state by a bare DecRef). R-STOREOVER (typestate of the Result storage of constructed-ready cores), R-APICOVER (every public function template is instantiated by some analysed unit; an uncovered entry is exit 2). R-ADOPT (a reference adopted with NoRefTag was taken by the same function, IncRef first; Reset(NoRefTag) only overwrites the handle of an object created in the same function, helpers followed). R-HANDOFF (shared with C04). R-FACTORYREFS (shared factories build adopting handles on the fresh core; the initial count is kSharedRefNoFuture plus the future handles handed out).',
     'C04': 'R-CASFRESH (every retry of a compare-exchange re-tests the refreshed expected value against what the first attempt tested), R-ORDER role=decision (a relaxed counter read may steer a branch only if an acquiring RMW follows), R-ODR. R-WAITRETURN (shared with C11: a multi-future wait returns only with last-one evidence through the counter\'s acquiring RMW). R-EVENT (shared with C11: the setter\'s last access to a stack event is the unlock). R-HANDOFF (a When* combinator is not touched after its last input has been registered: loop condition / increment / code after the registration loop work on locals).',
     'C05': 'R-START (shared with C12), R-RESUME.executor (a coroutine resumed inline takes the resuming core\'s executor), R-ROUTE.drop for every result-bearing Drop(). The pool rules of C08 (R-LOCKSET accept+enqueue, R-DRAIN, R-WAKE, R-FIFO, R-JOINALL), R-LISTSPEC (detail::List implements its sequence specification: abstract interpretation over an explicit heap, all lengths by a small-model argument) and R-JOBFIELDS (Strand members holding jobs are drained by Drop as well as Call). R-ROUTE.bind (the factory stores the executor argument; the predecessor\'s executor is inherited exactly when the step has none). R-ATTACHFORM (the 17 public attach forms hand the step factory the executor argument, Call / Detach / Lazy bits and On flavour that their name and signature promise). R-STRAND.one-batch (shared with C07). R-ROUTE.writers accepts a helper used only by routing sites. R-RUNFORM (Run / RunShared submit their first step to the executor argument itself, once, on every path).',
-    'C06': 'R-AFTERRELEASE, R-MOVEOUT.site (guard dominance GetRef() == 1 at every move-out of a not statically unique core), R-COMMIT, R-CASFRESH on the shared push. R-GETWAIT (Get reads the Result only after Wait / Ready). R-ONENODE (a combinator callback node is registered on at most one shared input; SingleCombinator over a shared core only for one input). R-BRIDGE (Share / Split connect the source to the promise of the contract they make on every path). R-SETARGS on SharedPromise::Set.',
+    'C06': 'R-AFTERRELEASE, R-MOVEOUT.site (guard dominance GetRef() == 1 at every move-out of a not statically unique core), R-COMMIT, R-CASFRESH on the shared push. R-GETWAIT (Get reads the Result only after Wait / Ready). R-ONENODE (a combinator callback node is registered on at most one shared input; SingleCombinator over a shared core only for one input). R-BRIDGE (Share / Split connect the source to the promise of the contract they make on every path). R-SETARGS on SharedPromise::Set. R-FACTORYREFS (shared with C03).',
     'C07': 'R-JOBFIELDS (every member of Strand that can hold jobs and is used by Call() is drained by Drop() too). R-STRAND.link (the published job links to the observed head iff that head is a job list), R-SHAPE with order (the batch is Called oldest first). R-STRAND.one-batch (one invocation of Strand::Call detaches one batch; later arrivals go through a new submission to the underlying executor).',
     'C08': 'R-WAKE (Submit notifies after enqueue; stop is followed by notify_all; a worker sleeps only after re-testing queue and stop under the lock), R-FIFO, R-JOINALL, R-LISTSPEC (detail::List against its sequence specification by abstract interpretation over an explicit heap). R-STOPFINAL (the stopped state is final whatever its representation).',
     'C09': 'R-LOOPCALLER, R-MOVEOUT.site on the strategies; R-POLICYFWD (every instantiation parameterised by a FailPolicy hands the same policy to each callee parameterised by one: entry point -> when::When -> strategy). R-OUTCOME (every Promise::Set hands on an accessor of the consumed Result or the collected values). R-INDEX (ordered static combinators: input I registers the callback carrying index I). R-MOVEOUT.site also covers SharedCore::Retire / UniqueCore::Retire. R-ONENODE, R-HANDOFF (shared with C06 / C04).',
@@ -259,7 +259,7 @@ ADDED_RULES = {
     'C17': 'D2 is type based (the engine is found whatever it is called; SetSeed stores the seed, re-seeds on every path and restarts the draw counter), D4 pointer-in-key. D2 converse (counter and engine advance together on every path of GetRandNumber; ForwardToRandCount iterates exactly the recorded count). D7 (the mutable static state of the fault layer is the reviewed set; a new static that decision code reads is reported). D7 accepts table statics regrouped into one aggregate (as many vanished entries as fields).',
     'C19': 'compare-exchange on floating T decides on the object representation (found F13); a wrapper operation built on the injected weak CAS must not decide with == / != on floating values. R-OPTABLE compares integral operations modulo 2^N (a + (0 - b) is a - b for integral T only); private helpers are judged through their users.',
     'C20': 'probe entries for fat captures (72 B, 1 KiB), mutable lambda, function pointer / reference and lvalue functor across the step kinds. Probe value type LooseValue (move constructor not noexcept) through WhenAll / WhenAny / Join: a copy per input in Retire is an unbounded allocation; std::string members classified; vector::reserve counted as one block.',
-    'C18': 'R-MODE compares every acquisition form with the set of acquire effects of the blocking lock() (each form must offer each of them and nothing else); R-ODR (inline / constexpr functions used by the wrappers are defined in the unit that uses them). R-WAKEALL (a release never wakes only one waiter of a queue on which shared acquirers park; found F12). R-SLEEPSLOT (a sleep-list slot is erased only when empty).',
+    'C18': 'R-MODE compares every acquisition form with the set of acquire effects of the blocking lock() (each form must offer each of them and nothing else); R-ODR (inline / constexpr functions used by the wrappers are defined in the unit that uses them). R-WAKEALL (a release never wakes only one waiter of a queue on which shared acquirers park; found F12). R-SLEEPSLOT (a sleep-list slot is erased only when empty). R-TLS (thread-local pointers live in the fiber object: the proxy goes through GetTLS / SetTLS of the current fiber and keeps no file-level state besides the defaults); R-FORWARD: try_lock wrappers answer what Impl answered.',
 }
 for _p, _t in ADDED_RULES.items():
     CLAIMS[_p]['text'] = CLAIMS[_p]['text'].rstrip() + ' Added during the build: ' + _t
